@@ -679,6 +679,9 @@ func (e *c13Env) checkpoint(ctx sdk.Context, view c13View, full bool, mism *int)
 		}
 		out = append(out, e.session(ctx, ep, []string{"ask", "bid", ""}[r.Intn(3)], after, c13Max, i == 0, r.Intn(3) != 0, r.Intn(2) == 0, 4, mism))
 	}
+	// ... and on one of the SDK-paginated listings (all orders, payments, commitments)
+	ep = eps[nOrderEps+r.Intn(len(eps)-nOrderEps)]
+	out = append(out, e.session(ctx, ep, "", 0, c13Max, r.Intn(2) == 0, r.Intn(2) == 0, r.Intn(2) == 0, 4, mism))
 	return out
 }
 
@@ -720,7 +723,7 @@ func TestC13(t *testing.T) {
 	nHist := scale(36, 300)
 	for hi := 0; hi < nHist; hi++ {
 		ctx, _ := baseCtx.CacheContext()
-		nSteps := 16 + r.Intn(14)
+		nSteps := 20 + r.Intn(14)
 		// a third of the histories page after EVERY step, the others after one step in five
 		everyStep := hi%3 == 0
 		e.markets = nil
@@ -730,6 +733,11 @@ func TestC13(t *testing.T) {
 			// shapes that must occur in every run: an external id of exactly 100 bytes, a source
 			// with an empty-external-id payment next to another one, a 100-byte payment id
 			e.forced = append(e.forced, "create-ext100", "pay-empty", "pay-x", "pay-ext100")
+		}
+		if hi%6 == 1 {
+			// an explicit id exactly where the automatic counter stands, then automatic creations,
+			// which must skip it
+			e.forced = append(e.forced, "mcreate-next-explicit", "mcreate-auto", "commit", "mcreate-next-explicit", "mcreate-auto")
 		}
 		if hi%6 == 3 {
 			e.forced = append(e.forced, "acct-squat-next", "mcreate-auto", "mcreate-explicit", "mcreate-dup", "commit", "commit", "settle")
@@ -1227,7 +1235,7 @@ func (e *c13Env) genCommitOp(ctx sdk.Context, view c13View, want string) (string
 	}
 	k := r.Intn(100)
 	switch want {
-	case "mcreate-auto", "mcreate-explicit", "mcreate-dup":
+	case "mcreate-auto", "mcreate-explicit", "mcreate-dup", "mcreate-next-explicit":
 		k = 0
 	case "acct-squat-next":
 		k = 9
@@ -1253,10 +1261,22 @@ func (e *c13Env) genCommitOp(ctx sdk.Context, view c13View, want string) (string
 		case "mcreate-dup":
 			sel = 9
 		}
+		nextFree := uint32(1)
+		for known(nextFree) {
+			nextFree++
+		}
+		if want == "mcreate-next-explicit" {
+			sel = 7
+		}
 		switch {
 		case sel < 6:
-		case sel < 8:
+		case sel < 7:
 			id = uint32(3 + r.Intn(7))
+		case sel < 8:
+			id = nextFree // where the automatic counter will look next
+			if want == "" && r.Intn(2) == 0 {
+				id++
+			}
 		default:
 			if len(view.markets) > 0 {
 				id = view.markets[r.Intn(len(view.markets))]
